@@ -95,7 +95,11 @@ TNoDisc == /\ IsEvent("nodisc")
 TStalled == /\ IsEvent("stalled")
             /\ Check(4, "C16 background handlers that never return stopped the delivery of later events", FALSE)
             /\ UNCHANGED <<vars, lastLine>>
-TNext == (TEnter \/ TExit \/ TRecover \/ TIPanic \/ TDisc \/ TReset \/ TBogus \/ TNoDisc \/ TStalled) /\ Props
+\* the welcome line was dispatched (lines after it were delivered) but CONNECTED never reached its handlers
+TNoConnected == /\ IsEvent("noconnected")
+                /\ Check(4, "C16 CONNECTED was not delivered although the welcome line was processed", FALSE)
+                /\ UNCHANGED <<vars, lastLine>>
+TNext == (TEnter \/ TExit \/ TRecover \/ TIPanic \/ TDisc \/ TReset \/ TBogus \/ TNoDisc \/ TStalled \/ TNoConnected) /\ Props
 TraceSpec == TInit /\ [][TNext]_tvars
 
 HW == TLCSet(1, IF l > TLCGet(1) THEN l ELSE TLCGet(1))
